@@ -10,6 +10,11 @@ def net(**kw):
     d.update(kw)
     return d
 
+def lang(**kw):
+    d = {"worker": "lang", "variant": "plain"}
+    d.update(kw)
+    return d
+
 LEVEL = {}
 PLAN = {
     "C01": {"steps": [codec()]},
@@ -24,6 +29,8 @@ PLAN = {
     "C10": {"steps": [codec()]},
     "C12": {"steps": [codec()]},
     "C13": {"steps": [codec()]},
+    "C14": {"steps": [lang()]},
+    "C15": {"steps": [lang()]},
     "C16": {"steps": [codec(part="dynamic")]},
     "C17": {"steps": [codec()]},
     "C09": {"steps": [net(), net(variant="race", tiers=["thorough"], scale={"thorough": 0.05})]},
